@@ -810,6 +810,14 @@ func handlerHistory(e *Env) {
 	}
 	var evts []*evt
 	nEvents := g.Range(1, 25)
+	// in a quarter of the runs the connection is ended (by another task) while a
+	// foreground handler of a chosen event is running; the handler then goes on
+	// to register or remove handlers, with the teardown waiting for it
+	endAt := -1
+	if g.Pct(25) {
+		endAt = g.Intn(nEvents)
+	}
+	ended, closeReturned, disconnected := false, false, false
 	var register func(name string, bg bool, sentinel bool, by string) *hReg
 	removeH := func(h *hReg) {
 		if h.removeIssued || h.rem == nil {
@@ -868,6 +876,24 @@ func handlerHistory(e *Env) {
 			if g.S.Choose(3) == 0 {
 				simrt.Sleep(0)
 			}
+			if q == endAt && !h.bg && !ended {
+				ended = true
+				e.S.Count("fault.connection-ended-under-a-registering-handler")
+				how := g.S.Choose(2)
+				e.S.Spawn("ender", func() {
+					if how == 0 {
+						s.c.Close()
+					} else {
+						s.l.CloseByServer()
+					}
+					closeReturned = true
+				})
+				simrt.Sleep(time.Duration(1+g.S.Choose(5)) * time.Millisecond)
+				register(h.name, g.S.Choose(2) == 0, false, "handler")
+				if o := pickLive(h.name, g.S.Choose(2) == 0, h); o != nil {
+					removeH(o)
+				}
+			}
 			if q == h.selfRemoveAt {
 				e.S.Count("probe.self-removal-inside-handler")
 				removeH(h)
@@ -923,6 +949,7 @@ func handlerHistory(e *Env) {
 	for _, f := range free {
 		isFree[f] = true
 	}
+	s.c.HandleFunc(client.DISCONNECTED, func(*client.Conn, *client.Line) { disconnected = true })
 	if !s.connect() {
 		return
 	}
@@ -974,6 +1001,35 @@ func handlerHistory(e *Env) {
 		if ln == "PONG :fin" {
 			fin = true
 		}
+	}
+	if endAt >= 0 {
+		// (the chosen event may have had no foreground handler: then nothing
+		// ended the connection and the run is an ordinary one)
+		simrt.BlockFor("history", "the end of the connection or of the events", time.Hour, func() bool { return ended || fin })
+	}
+	if ended {
+		if !simrt.BlockFor("history", "teardown under a registering handler", time.Hour, func() bool { return ended && disconnected && closeReturned && mutDone == nMut }) {
+			e.Violation("stuck", "the connection was ended while a foreground handler was running; the handler then registered/removed handlers: ended=%v DISCONNECTED delivered=%v ender returned=%v mutators done=%d/%d\n%s",
+				ended, disconnected, closeReturned, mutDone, nMut, e.S.TaskDump())
+			return
+		}
+		simrt.Settle(time.Minute)
+		// lines after the end are legitimately discarded: only "never twice,
+		// never under another name" is checked for this run
+		for _, ev := range evts {
+			for _, h := range regs {
+				cnt := h.runs[ev.seq]
+				if cnt > 1 {
+					e.Violation("ran-twice", "handler %d (%s, %s) ran %d times for event %d", h.id, h.name, setName(h.bg), cnt, ev.seq)
+					return
+				}
+				if h.name != ev.name && cnt != 0 {
+					e.Violation("wrong-name", "handler %d registered under %q ran for event %d named %q", h.id, h.name, ev.seq, ev.name)
+					return
+				}
+			}
+		}
+		return
 	}
 	if !simrt.BlockFor("history", "all events dispatched", time.Hour, func() bool { return fin && mutDone == nMut }) {
 		e.Violation("stuck", "registering/removing handlers (also from inside handlers) stalled event delivery\n%s", e.S.TaskDump())
